@@ -271,7 +271,9 @@ def _write_xml_element_to_file(file, xml_element, indent: str):
 
 
 def _write_xml_string_to_file(file, xml_string: str, indent: str):
-    result = textwrap.indent(xml_string, indent)
+    # indent line by line, splitting at "\n" only: textwrap.indent also splits at Unicode line boundaries such as
+    # U+2028 / U+2029 and would insert the indentation into element text (paths, comments, ...) containing them
+    result = "\n".join(indent + line if line.strip() else line for line in xml_string.split("\n"))
     file.write(result.encode("utf-8"))
 
 
